@@ -28,10 +28,12 @@ def main(tier, replay):
     J('sens-swallow', 'p4', [1, 1, 1, 1, 0, 1, 1], expect='Write reports')
     run_program_jobs(c, mod, infos, jobs, native_templates=NATIVE)
     c.programs = len(P)
+    # distinct fault positions actually exercised (distinct failed-call notes per workload), measured by the engine
+    c.extra['distinct_nontrivial_override'] = sum(jr.get('distinct_notes', 0) for j, jr, x in c.jobs if not j.get('expect'))
     ncalls = [jr['paths'] for j, jr, x in c.jobs]
     c.bounds = {'fault index k': 'symbolic int64 >= 1: one path per sink call of the workload plus the fault-free one (exhaustive over k)', 'partial count on failure': '0 or len(p)/2',
                 'workloads': '2 batches x 2 records (3x3 thorough) of fixed structure, page size 1 and 2, each codec, programs %s' % sorted(P), 'paths per workload': [min(ncalls or [0]), max(ncalls or [0])],
                 'outside': 'sinks that return n < len(p) with a nil error (io.Writer contract violation); failures inside thrift/snappy/gzip themselves'}
     c.assumptions = [STUB_ASSUMPTIONS[k] for k in ('A1', 'A3', 'A4', 'A5', 'A6', 'A7')]
-    c.finish('paths = value of the symbolic fault index k relative to the number of sink calls (each comparison calls == k forks) x partial-write choice; every path with a fault is distinct and non-trivial by construction; evaluations = paths',
+    c.finish('paths = value of the symbolic fault index k relative to the number of sink calls (each comparison calls == k forks) x partial-write choice; distinct_nontrivial = number of distinct (workload, failing call index) pairs actually exercised, counted from the per-path notes; evaluations = paths',
              'NewParquetWriter/begin, Add, Write, Close, all generated field Write methods, DoWrite x2, compress, WritePageHeader, Footer executed from SSA on a sink whose k-th call fails; after the call during which the sink failed the error must be non-nil; no panic')
